@@ -151,6 +151,23 @@ static int blackhole(int *port, int fill[4])
     return l;
 }
 
+/* the interest set of an epoll instance as the kernel reports it: sorted "tfd:events" pairs from /proc/self/fdinfo */
+static void epoll_sig(int epfd, char *out, size_t cap)
+{
+    char path[64], line[256]; int tf[64], ev[64], n = 0;
+    snprintf(path, sizeof(path), "/proc/self/fdinfo/%d", epfd);
+    FILE *f = fopen(path, "r");
+    out[0] = 0;
+    if (!f) { snprintf(out, cap, "?"); return; }
+    while (fgets(line, sizeof(line), f) && n < 64) {
+	int a; unsigned b;
+	if (sscanf(line, "tfd: %d events: %x", &a, &b) == 2) { tf[n] = a; ev[n] = (int)b; n++; }
+    }
+    fclose(f);
+    for (int i = 0; i < n; i++) for (int j = i + 1; j < n; j++) if (tf[j] < tf[i]) { int x = tf[i]; tf[i] = tf[j]; tf[j] = x; x = ev[i]; ev[i] = ev[j]; ev[j] = x; }
+    for (int i = 0; i < n; i++) snprintf(out + strlen(out), cap - strlen(out), "%d:%x,", tf[i], ev[i]);
+}
+
 static void run_fork(FILE *o, const char *proto)
 {
     bool tcpish = strcmp(proto, "ux") && strcmp(proto, "uxf");
@@ -165,16 +182,36 @@ static void run_fork(FILE *o, const char *proto)
 	struct xcm_attr_map *m = sys_base_attrs(proto, true); xcm_attr_map_add_double(m, "tcp.connect_timeout", 0.4);
 	pend = xcm_connect_a(a, m); xcm_attr_map_destroy(m);
     }
+    /* a connection whose peer has gone and which has noticed it (its bell rings: the fd is readable until it is closed) */
+    struct xcm_socket *dead = NULL;
+    { struct xcm_attr_map *m = sys_base_attrs(proto, true); struct xcm_socket *c3 = xcm_connect_a(t.addr, m); xcm_attr_map_destroy(m);
+      struct xcm_socket *a3 = NULL; int up = 0; char b3[8];
+      for (int i = 0; c3 && i < 3000 && !up; i++) { if (!a3) { struct xcm_attr_map *am = xcm_attr_map_create(); xcm_attr_map_add_bool(am, "xcm.blocking", false); a3 = xcm_accept_a(t.server, am); xcm_attr_map_destroy(am); }
+	  int f1 = xcm_finish(c3); int f2 = a3 ? xcm_finish(a3) : -1; if (f1 == 0 && f2 == 0) up = 1; usleep(200); }
+      if (a3) xcm_close(a3);
+      if (c3 && up) { for (int i = 0; i < 3000; i++) { int rc = xcm_receive(c3, b3, sizeof(b3)); if (rc == 0 || (rc < 0 && errno != EAGAIN)) { dead = c3; break; } usleep(200); } }
+      if (c3 && !dead) xcm_close(c3); }
+    struct xcm_socket *own[5] = { t.client, t.accepted, t.server, dead, pend };
+    char sig0[5][600], sig1[5][600];
+    for (int i = 0; i < 5; i++) { sig0[i][0] = 0; if (own[i]) epoll_sig(xcm_fd(own[i]), sig0[i], sizeof(sig0[i])); }
+    int dead_before = -1;
+    if (dead) { struct pollfd p = { .fd = xcm_fd(dead), .events = POLLIN }; dead_before = poll(&p, 1, 0) > 0; }
     int ctl_before = count_files(ctl_dir);
     fflush(o);
     pid_t pid = fork();
     if (pid == 0) {
 	/* the child releases its copies; it must not touch what belongs to the parent */
-	xcm_cleanup(t.client); xcm_cleanup(t.accepted); xcm_cleanup(t.server); if (pend) xcm_cleanup(pend);
+	xcm_cleanup(t.client); xcm_cleanup(t.accepted); xcm_cleanup(t.server); if (pend) xcm_cleanup(pend); if (dead) xcm_cleanup(dead);
 	_exit(0);
     }
     int st; waitpid(pid, &st, 0);
     int child_ok = WIFEXITED(st) && WEXITSTATUS(st) == 0;
+    /* the kernel-side interest sets of the owner's sockets (shared with the child through fork) must be what they were */
+    int epoll_same = 1;
+    for (int i = 0; i < 5; i++) { sig1[i][0] = 0; if (own[i]) epoll_sig(xcm_fd(own[i]), sig1[i], sizeof(sig1[i])); if (strcmp(sig0[i], sig1[i])) epoll_same = 0; }
+    int dead_signalled = -1;
+    /* judged against what it was before the fork (a ux connection awaiting nothing is legitimately quiet) */
+    if (dead) { struct pollfd p = { .fd = xcm_fd(dead), .events = POLLIN }; dead_signalled = (poll(&p, 1, 0) > 0) || !dead_before; }
     /* the owner's view afterwards */
     char buf[64]; int c2s = 0, s2c = 0;
     xcm_send(t.client, "ping", 4); xcm_send(t.accepted, "pong", 4);
@@ -203,7 +240,8 @@ static void run_fork(FILE *o, const char *proto)
 	waited = now() - t0;
 	xcm_close(pend);
     }
-    fprintf(o, "child_ok=%d c2s=%d s2c=%d file_ok=%d ctl=%d/%d accepts_again=%d pending=%s waited=%.2f\n", child_ok, c2s, s2c, file_ok, ctl_before, ctl_after, again, pend_st, waited);
+    fprintf(o, "child_ok=%d c2s=%d s2c=%d file_ok=%d ctl=%d/%d accepts_again=%d pending=%s waited=%.2f epoll_same=%d dead_signalled=%d\n", child_ok, c2s, s2c, file_ok, ctl_before, ctl_after, again, pend_st, waited, epoll_same, dead_signalled);
+    if (dead) xcm_close(dead);
     sys_close_trio(&t);
     if (bl >= 0) { __real_close(bl); for (int i = 0; i < 4; i++) __real_close(fill[i]); }
 }
